@@ -453,7 +453,8 @@ R"(
     SBEPP_CPP14_CONSTEXPR {class_name}& operator()(
         ::sbepp::detail::access_by_tag_tag, {tag}, const bool v) noexcept
     {{
-        return {name}(v);
+        // `this->` is required for choice named `v`
+        return this->{name}(v);
     }}
 )",
                 // clang-format on
